@@ -1050,9 +1050,11 @@ def oracles_C09(ctx, hints):
                     case = w.rsplit("(", 1)[1].rstrip(")")
                     if (cls, case) not in seen:
                         seen.add((cls, case))
-                        fails.append(Failure("element_exact", args, w,
-                                             {"class": cls, "check": "element_exact", "case": case,
-                                              "element": "package" if cls.startswith("iNET") else "segment"}))
+                        # NOT a failure of C09: the property lists the checks the decoders perform (NPD: total
+                        # length; iNET: short buffer) and neither decoder performs an element-length check, so
+                        # demanding one would ask for more than the property states (DESIGN §12.4).  Recorded as
+                        # an observation in the evidence.
+                        ctx.notes.append("observation (outside C09's list of checks): " + w[:300])
             if cls == "iNET" and not noted and len(m) >= 24 and int.from_bytes(m[12:16], "big") != len(m):
                 a = ADAPTERS[cls]
                 try:
